@@ -310,6 +310,60 @@ def run(ctx):
             ctx.violation("assembly raised " + exc_kind(ex), {"case": descr2, "err": repr(ex)},
                           {"what": "raise-assemble"})
             continue
+        # ---------------- the ORDER in which the cells / facets of a subset are listed does not matter, a repeated cell
+        # counts twice, and an empty selection integrates nothing (independent of the library's own per-cell
+        # table, which the model is fed with)
+        try:
+            sub = descr["mesh"].get("subset") if isinstance(descr["mesh"], dict) else None
+            if descr["basis"] == "cell-subset" and sub is not None:
+                from skfem import CellBasis
+                io = descr["intorder"]
+                srt = np.array(sorted(sub), dtype=np.int64)
+                us = CellBasis(m, ub.elem, elements=srt, intorder=io)
+                vs = us if vb is ub else CellBasis(m, vb.elem, elements=srt, intorder=io)
+                if not any(isinstance(v, np.ndarray) and v.ndim == 2 for v in kwargs.values()):
+                    # (per-cell parameter arrays are tied to the listing order: not comparable)
+                    As = BilinearForm(bil, dtype=dtype).assemble(us, vs, **dict(kwargs))
+                    ctx.count("subset-order-invariance")
+                    d_ = float(np.abs((A - As)).max()) if A.shape == As.shape else float("inf")
+                    if d_ > 1e-12 * max(1.0, float(np.abs(As).max())):
+                        ctx.violation("the matrix over a cell subset depends on the order in which the cells are listed",
+                                      {"case": descr2, "listed": list(sub), "difference": d_},
+                                      {"what": "subset-order", "basis": "cell"})
+                if len(sub) >= 1 and rng.random() < 0.5:
+                    # the full-length variants: every cell once in another order; one cell twice
+                    perm = list(range(m.nelements))
+                    rng.shuffle(perm)
+                    if rng.random() < 0.5 and m.nelements >= 3:
+                        # first cell first, last cell last, the others in any order
+                        perm = [0] + [c for c in perm if c not in (0, m.nelements - 1)] + [m.nelements - 1]
+                    whole = CellBasis(m, ub.elem, intorder=io)
+                    permd = CellBasis(m, ub.elem, elements=np.array(perm, dtype=np.int64), intorder=io)
+                    mass = BilinearForm(fields.generic_bilinear())
+                    Aw, Ap = mass.assemble(whole), mass.assemble(permd)
+                    ctx.count("all-cells-permuted")
+                    if float(np.abs(Aw - Ap).max()) > 1e-12 * max(1.0, float(np.abs(Aw).max())):
+                        ctx.violation("a basis over ALL cells listed in another order assembles another matrix than "
+                                      "the basis over the whole mesh", {"case": descr2, "listed": perm},
+                                      {"what": "subset-order", "basis": "all-cells"})
+                    twice = sorted(sub) + [sorted(sub)[0]]
+                    At = mass.assemble(CellBasis(m, ub.elem, elements=np.array(twice, dtype=np.int64), intorder=io))
+                    A1 = mass.assemble(CellBasis(m, ub.elem, elements=np.array(sorted(sub), dtype=np.int64), intorder=io))
+                    A0 = mass.assemble(CellBasis(m, ub.elem, elements=np.array(sorted(sub)[:1], dtype=np.int64),
+                                                 intorder=io))
+                    if float(np.abs(At - A1 - A0).max()) > 1e-12 * max(1.0, float(np.abs(A1).max())):
+                        ctx.violation("a cell listed twice does not contribute twice", {"case": descr2, "listed": twice},
+                                      {"what": "subset-order", "basis": "repeated"})
+                    empty = CellBasis(m, ub.elem, elements=np.array([], dtype=np.int64), intorder=io)
+                    meas = Functional(lambda w: 1. + 0. * w.x[0]).elemental(empty)
+                    ctx.count("empty-cell-selection")
+                    if int(empty.nelems) != 0 or np.asarray(meas).size != 0:
+                        ctx.violation("a basis over an EMPTY cell selection is not empty (it integrates over "
+                                      f"{int(empty.nelems)} cells)", {"case": descr2, "nelems": int(empty.nelems)},
+                                      {"what": "empty-selection", "basis": "cell"})
+        except Exception as ex:
+            ctx.violation("subset order / empty selection evaluation raised " + exc_kind(ex),
+                          {"case": descr2, "err": repr(ex)}, {"what": "raise-consistency"})
         # ---------------- a coefficient vector and its pre-interpolated field enter identically (complex too)
         try:
             if "f" in kwargs or rng.random() < 0.3:
